@@ -232,3 +232,16 @@ func (p *LogPub) Close() error {
 	}
 	return nil
 }
+
+// failCloseSub is what a router-level subscriber decorator returns in FailSubDecorator scenarios: Subscribe passes through,
+// Close fails in the decorator's own work and never reaches the wrapped subscriber (the subscription stays open; the router
+// still has the handler's context to end it).
+type failCloseSub struct {
+	message.Subscriber
+	rec *Rec
+}
+
+func (f *failCloseSub) Close() error {
+	f.rec.Log("scd")
+	return errors.New("scripted decorator: flushing offsets failed")
+}
